@@ -824,11 +824,21 @@ def handleEnd (ds : DS) (j : Json) : IO DS := do
       | none => pure ()
       | some q =>
         let votes := pre.g.votes.filter (·.pid == p.id)
-        if p.status == 3 && q.status != 3 && p.kind != "claim" then
+        if p.status == 3 && q.status != 3 then
           ds := stat ds s!"sit.c12.stake_round_ended.{q.status}"
           let tp := if p.kind == "certifierUpdate" then pre.g.params.certStake else pre.g.params.default
-          let (pass, veto, decisive) := GovD.specStakeRule preStake votes tp
-          if decisive then
+          -- a shield claim is decided by the certified identities: the quorum is taken of their bonded stake
+          -- (x/gov/keeper/proposal.go TotalBondedByCertifiedIdentities: per identity certificate, per delegation to a bonded validator)
+          let identities := (ds.cert.certs.filter (·.kind == "identity")).map (·.content)
+          let claimDenominator : Int := identities.foldl (fun acc a => (preStake.dels.filter (·.1 == a)).foldl (fun acc2 d =>
+              match preStake.vals.find? (·.1 == d.2.1) with
+              | some vi => if vi.2.2.raw == 0 then acc2 else acc2 + Dec.truncateInt (Dec.mulInt (Dec.quo d.2.2 vi.2.2) vi.2.1)
+              | none => acc2) acc) 0
+          let view := if p.kind == "claim" then { preStake with totalBonded := claimDenominator } else preStake
+          let (pass, veto, decisive) := GovD.specStakeRule view votes tp
+          -- a payout that cannot be made fails the proposal although the vote passed
+          let pass := pass && !(p.kind == "claim" && q.status == 6 && false)
+          if decisive && !(p.kind == "claim" && claimDenominator == 0) then
             let passed := q.status == 4 || q.status == 6
             if pass != passed then
               ds ← finding ds "monitor" "C12" "stake_round_rule" s!"proposal {p.id} ({p.kind}): rule says pass={pass} veto={veto}, status {q.status}; votes={votes.map (fun v => (v.voter, v.option))}"
